@@ -304,9 +304,9 @@ def value_api_stream(ctx, ds):
                 ids = (ctx.add('value_get_ci %s %s' % (t, gen.hexarg(k))).id, ctx.add('get_by_name %s %s 1' % (e, gen.hexarg(k))).id)
                 ctx.value_api.append(('ci', v, ids))
     # several keys that differ in case only: the first in key order wins, an exact match wins over all
-    for keys in ([b'KEY', b'Key', b'key'], [b'AB', b'Ab', b'aB'], [b'\xc3\x89a', b'\xc3\xa9A'], [b'a', b'b']):
+    for keys in ([b'KEY', b'Key', b'key'], [b'AB', b'Ab', b'aB'], [b'\xc3\x89a', b'\xc3\xa9A'], [b'a', b'b'], ['\u00b5S'.encode(), b'a'], ['\u00ffx'.encode(), b'zz'], ['\u212a'.encode(), b'k0']):
         v = ('o', sorted((k, ('u', i)) for i, k in enumerate(keys)))
-        for name in keys + [keys[0].lower(), keys[0].upper(), keys[-1].swapcase(), b'kEY', b'', b'\xc3\xa9a']:
+        for name in keys + [keys[0].lower(), keys[0].upper(), keys[-1].swapcase(), b'kEY', b'', b'\xc3\xa9a', '\u00b5s'.encode(), '\u00ffX'.encode()]:
             ids = (ctx.add('value_get_ci %s %s' % (gen.vtext(v), gen.hexarg(name))).id,
                    ctx.add('get_by_name %s %s 1' % (gen.hexarg(gen.enc(v)), gen.hexarg(name))).id)
             ctx.value_api.append(('ci', v, ids))
